@@ -159,6 +159,25 @@ def ev(v, val, hooks=None):
             except Raised:
                 return False
             return True
+        if op == 'mcall' and not isinstance(ev(a[0], val, hooks),
+                                            (str, bytes, Obj)):
+            base = ev(a[0], val, hooks)
+            pos, kw = [], {}
+            for raw in a[2:]:
+                if isinstance(raw, T) and raw.op == 'kw':
+                    kw[raw.args[0]] = ev(raw.args[1], val, hooks)
+                else:
+                    pos.append(ev(raw, val, hooks))
+            try:
+                return getattr(base, a[1])(*pos, **kw)
+            except AttributeError:
+                raise Raised('AttributeError')
+            except TypeError:
+                raise Raised('TypeError')
+            except ValueError:
+                raise Raised('ValueError')
+            except OverflowError:
+                raise Raised('OverflowError')
         if op == 'item':
             return ev(a[0], val, hooks)[ev(a[1], val, hooks)]
         if op == 'sub':
@@ -183,6 +202,9 @@ def ev(v, val, hooks=None):
         raise CannotEval('no valuation for %s' % show(v))
     if isinstance(v, TupleV):
         return tuple(ev(x, val, hooks) for x in v.items)
+    if isinstance(v, DictV):
+        return {ev(k, val, hooks): ev(x, val, hooks)
+                for k, x in zip(v.keys, v.vals)}
     from .values import ExtRef
     if isinstance(v, ExtRef) and hooks:
         for h in hooks:
